@@ -374,9 +374,14 @@ Definition global_call (g : string) (args : list value) (kw : list (string * val
     | [VOpaque] => Ok (VOpaque, st)
     | _ => Er (ErrType "int")
     end
+  else if String.eqb g "set" then
+    match args with
+    | [] => Ok (alloc (ODict []) st)
+    | _ => Ok (VOpaque, st)
+    end
   else if String.eqb g "createCanvas" then
     let '(c, st1) := alloc (OCanvas (length args)) st in
-    Ok (c, addlog "createCanvas" args st1)
+    Ok (c, addlog "createCanvas" (c :: args) st1)
   else Ok (VOpaque, addlog g (args ++ map snd kw) st).
 
 Definition is_global (v : value) : option string := match v with VGlobal g => Some g | _ => None end.
@@ -537,8 +542,14 @@ Fixpoint eval (fuel : nat) (e : expr) (st : state) {struct fuel} : res (value * 
                   match hget st2 recv with
                   | Some (OTensor _ _ _) => tensor_method recv m vs kvs st2
                   | Some (ODict es) =>
-                      if String.eqb m "keys" then Ok (VList (map fst es), st2) else Er (ErrApi ("dict method " ++ m))
-                  | Some (OCanvas _) => Ok (VNone, addlog ("canvas." ++ m) (vs ++ map snd kvs) st2)
+                      if String.eqb m "keys" then Ok (VList (map fst es), st2)
+                      else if String.eqb m "add" then
+                        match vs, recv with
+                        | [k], VLoc l => Ok (VNone, hset l (ODict (aset (deref st2 k) VNone es)) st2)
+                        | _, _ => Er (ErrType "set.add")
+                        end
+                      else Er (ErrApi ("dict method " ++ m))
+                  | Some (OCanvas _) => Ok (VNone, addlog ("canvas." ++ m) (recv :: vs ++ map snd kvs) st2)
                   | _ =>
                       if negb (is_fiberlike st2 recv) then Er (ErrType ("method " ++ m ++ " on a non-object")) else
                       if String.eqb m "project" then
